@@ -133,6 +133,18 @@ def run_case(case):
                         classes.add("selfstep")
                     if e:
                         classes.add("step" + o1 + o2)
+        # a link added through the library afterwards: the path that was not a walk a moment ago is one now
+        for p in paths:
+            steps = models.parse_path(p)
+            if len(steps) == 2 and not lm.is_walk(steps) and all(n in segs for _, n in steps):
+                (o1, n1), (o2, n2) = steps
+                r = core.call(graph.add_edge, n1, "+" if o1 == ">" else "-", n2, "+" if o2 == ">" else "-", 0)
+                core.check(r[0] == "ok", "add_edge failed: %s", r)
+                want = "".join(segs[n][0] if o == ">" else models.revcomp(segs[n][0]) for o, n in steps)
+                r = core.call(graph.extract_path, p)
+                core.check(r[0] == "ok" and r[1] == want, "after add_edge(%s) extract_path(%s) = %r, expected %r", p, p, r, want)
+                classes.add("path_becomes_walk_after_add_edge")
+                break
         # find_path on a file of paths (API call, command line with -o, or command line to standard output)
         via = case.get("via", "api")
         classes.add("via:" + via)
